@@ -274,64 +274,121 @@ pub fn err_tag(term: &str) -> &'static str {
 
 // ---------------------------------------------------------------- exec driver with watchdog
 //
-// Every input line is processed in its own thread. If a line does not finish within the
-// time limit (the planner of an unfixed or mutated tree can loop forever while allocating),
-// the `on_timeout` answer is printed for that line and the process re-executes itself on the
-// remaining lines, which kills the runaway thread.
-pub fn exec_main(
-    bin_args_for_file: &str,
-    lines: Vec<String>,
-    limit: std::time::Duration,
-    work: fn(&str) -> String,
-    on_timeout: fn(&str, bool) -> String,
-    mut timeouts: usize,
-) {
+// `exec` is a master process that feeds the input lines one at a time to a worker process
+// (`exec-worker`, the same binary) and waits for each answer with a time limit. A worker that
+// hangs (the planner of an unfixed or mutated tree can loop forever while allocating), aborts
+// (stack overflow in a recursion without cycle check) or dies is killed / restarted, and the line
+// is answered by `on_fail(line, Hang | Crash)`. After a few such failures the remaining lines are
+// answered by `on_fail(line, Skip)` so that a badly broken tree does not stall the check.
+#[derive(Clone, Copy, PartialEq, Debug)]
+pub enum Fail {
+    Hang,
+    Crash,
+    Skip,
+}
+
+struct Worker {
+    child: std::process::Child,
+    stdin: std::process::ChildStdin,
+    rx: std::sync::mpsc::Receiver<String>,
+}
+
+fn spawn_worker() -> Worker {
+    use std::io::BufRead;
+    let exe = std::env::current_exe().unwrap();
+    let mut child = std::process::Command::new(exe)
+        .arg("exec-worker")
+        .stdin(std::process::Stdio::piped())
+        .stdout(std::process::Stdio::piped())
+        .stderr(std::process::Stdio::null())
+        .spawn()
+        .unwrap();
+    let stdin = child.stdin.take().unwrap();
+    let stdout = child.stdout.take().unwrap();
+    let (tx, rx) = std::sync::mpsc::channel();
+    std::thread::spawn(move || {
+        for l in std::io::BufReader::new(stdout).lines() {
+            match l {
+                Ok(l) => {
+                    if tx.send(l).is_err() {
+                        break;
+                    }
+                }
+                Err(_) => break,
+            }
+        }
+    });
+    Worker { child, stdin, rx }
+}
+
+pub fn exec_master(lines: Vec<String>, limit: std::time::Duration, on_fail: fn(&str, Fail) -> String) {
     use std::io::Write;
     let stdout = std::io::stdout();
     let mut out = std::io::BufWriter::new(stdout.lock());
-    for (i, line) in lines.iter().enumerate() {
+    let mut worker: Option<Worker> = None;
+    let mut failures = 0;
+    for line in lines.iter() {
         if line.trim().is_empty() {
             continue;
         }
-        if timeouts >= 4 {
-            // enough hanging inputs found: the remaining lines are answered as "not run"
-            writeln!(out, "{}", on_timeout(line, false)).unwrap();
+        if failures >= 4 {
+            writeln!(out, "{}", on_fail(line, Fail::Skip)).unwrap();
             continue;
         }
-        let (tx, rx) = std::sync::mpsc::channel();
-        let l2 = line.clone();
-        std::thread::spawn(move || {
-            let r = std::panic::catch_unwind(|| work(&l2));
-            let _ = tx.send(r.ok());
-        });
-        match rx.recv_timeout(limit) {
-            Ok(Some(s)) => writeln!(out, "{}", s).unwrap(),
-            Ok(None) | Err(std::sync::mpsc::RecvTimeoutError::Disconnected) => {
-                // the harness itself panicked on this line: a broken checker, not a verdict
-                eprintln!("harness panicked on input line: {}", line);
-                std::process::exit(3);
-            }
-            Err(std::sync::mpsc::RecvTimeoutError::Timeout) => {
-                writeln!(out, "{}", on_timeout(line, true)).unwrap();
+        if worker.is_none() {
+            worker = Some(spawn_worker());
+        }
+        let w = worker.as_mut().unwrap();
+        let sent = writeln!(w.stdin, "{}", line).and_then(|_| w.stdin.flush());
+        let answer = if sent.is_ok() { w.rx.recv_timeout(limit) } else { Err(std::sync::mpsc::RecvTimeoutError::Disconnected) };
+        match answer {
+            Ok(s) => writeln!(out, "{}", s).unwrap(),
+            Err(e) => {
+                let kind = if e == std::sync::mpsc::RecvTimeoutError::Timeout { Fail::Hang } else { Fail::Crash };
+                let mut w = worker.take().unwrap();
+                let _ = w.child.kill();
+                let status = w.child.wait().ok();
+                if kind == Fail::Crash {
+                    // exit code 3 = the harness itself is broken (see exec_worker)
+                    if status.and_then(|s| s.code()) == Some(3) {
+                        eprintln!("harness worker failed on input line: {}", line);
+                        std::process::exit(3);
+                    }
+                }
+                failures += 1;
+                writeln!(out, "{}", on_fail(line, kind)).unwrap();
                 out.flush().unwrap();
-                timeouts += 1;
-                let exe = std::env::current_exe().unwrap();
-                let tmp = exe.with_file_name(format!("resume-{}-{}.txt", std::process::id(), i));
-                std::fs::write(&tmp, lines[i + 1..].join("\n")).unwrap();
-                use std::os::unix::process::CommandExt;
-                let err = std::process::Command::new(exe).arg(bin_args_for_file).arg(&tmp).arg(timeouts.to_string()).exec();
-                panic!("re-exec failed: {err}");
             }
         }
     }
     out.flush().unwrap();
 }
 
-/// Standard `main` for the harness binaries: `gen <seed> <n> <tier>`, `exec`, `exec-file <path>`.
+fn exec_worker(work: fn(&str) -> String) {
+    use std::io::{BufRead, Write};
+    let stdin = std::io::stdin();
+    let stdout = std::io::stdout();
+    for line in stdin.lock().lines() {
+        let line = line.unwrap();
+        // panics of the code under test are caught inside `work`; a panic that reaches this
+        // point is a bug of the harness
+        let r = std::panic::catch_unwind(|| work(&line));
+        match r {
+            Ok(s) => {
+                let mut o = stdout.lock();
+                writeln!(o, "{}", s).unwrap();
+                o.flush().unwrap();
+            }
+            Err(_) => std::process::exit(3),
+        }
+    }
+}
+
+/// Standard `main` for the harness binaries: `gen <seed> <n> <tier>`, `exec`, `exec-worker`.
 pub fn harness_main(
     generate: fn(u64, usize, &str, &mut dyn std::io::Write),
     work: fn(&str) -> String,
-    on_timeout: fn(&str, bool) -> String,
+    on_fail: fn(&str, Fail) -> String,
     limit_ms: u64,
 ) {
     use std::io::BufRead;
@@ -348,14 +405,9 @@ pub fn harness_main(
         }
         Some("exec") => {
             let lines: Vec<String> = std::io::stdin().lock().lines().map(|l| l.unwrap()).collect();
-            exec_main("exec-file", lines, limit, work, on_timeout, 0);
+            exec_master(lines, limit, on_fail);
         }
-        Some("exec-file") => {
-            let txt = std::fs::read_to_string(&args[2]).unwrap();
-            let _ = std::fs::remove_file(&args[2]);
-            let t: usize = args.get(3).and_then(|s| s.parse().ok()).unwrap_or(0);
-            exec_main("exec-file", txt.lines().map(|s| s.to_string()).collect(), limit, work, on_timeout, t);
-        }
+        Some("exec-worker") => exec_worker(work),
         _ => {
             eprintln!("usage: {} gen <seed> <n> <tier> | exec", args[0]);
             std::process::exit(2);
